@@ -18,6 +18,7 @@ ACS = "berty.tech/go-orbit-db/accesscontroller/simple"
 ACO = "berty.tech/go-orbit-db/accesscontroller/orbitdb"
 
 ODB = "berty.tech/go-orbit-db/baseorbitdb"
+ADDR = "berty.tech/go-orbit-db/address"
 
 CHECKS = {
     "C13": {
@@ -85,11 +86,17 @@ CHECKS = {
             "max_paths": {"quick": 60000, "thorough": 600000},
             "timeout": {"quick": "10m", "thorough": "60m"},
             "covers": {"VerifC14Injective": ["same-inputs", "different-inputs"]},
+        }, {
+            "cross_solvers": ["cvc5", "z3-new"], "pkg": ADDR, "funcs": ["VerifC14AddressRoundTrip"],
+            "params": {"quick": {"L": 5}, "thorough": {"L": 7}},
+            "max_paths": {"quick": 60000, "thorough": 600000},
+            "covers": {"VerifC14AddressRoundTrip": ["parsed", "refused"]},
         }],
         "assumptions": [
             "real orbitDB instances (newOrbitDB, DetermineAddress, Create, Open, createStore, haveLocalData, addManifestToCache), the real manifest code, acutils, the real ipfs access controller Save/Load, address.Parse/IsValid, the real path.Join/Clean and the real cache manager (cacheleveldown) over a disk model",
             "name = symbolic string of length 0..L over ALL byte values; type in {eventlog, keyvalue, docstore}; explicit write list of 1..3 ids (symbolic) or none; two peers with different identities, peer ids and directories; plus names of the shape <3 symbolic bytes> + <root of another database> + '/v'",
             "CIDs are perfect hashes of an idealised CBOR encoding whose field lists are recorded from the atlases registered by the real source; cid.Decode accepts exactly the stand-in tokens",
+            "address round trip (VerifC14AddressRoundTrip, package address): name = symbolic string of 0..L bytes over ALL byte values; the address is built as DetermineAddress builds it (Parse of path.Join(\"/orbitdb\", root, name), kept only when rooted at the manifest); its printed form must be valid, parse back to the same root and path, and print again identically",
         ],
         "outside": ["real CID / multibase syntax", "orbitdb-type access controllers in the reopen check", "unicode normalisation (none is performed; bytes are opaque)", "names longer than L"],
     },
@@ -329,9 +336,9 @@ CHECKS = {
             "max_paths": {"quick": 60000, "thorough": 400000},
             "covers": {"VerifC20PeersDiff": ["diffed"], "VerifC20SelfFilter": ["drained"]},
         }, {
-            "pkg": OOO, "funcs": ["VerifC20ChannelID", "VerifC20Monitor", "VerifC20ConnectRace"],
+            "pkg": OOO, "funcs": ["VerifC20ChannelID", "VerifC20Monitor", "VerifC20ConnectRace", "VerifC20Reconnect"],
             "params": {"quick": {"L": 2, "M": 3, "P": 1}, "thorough": {"L": 3, "M": 5, "P": 2}},
-            "covers": {"VerifC20ChannelID": ["symmetric", "distinct"], "VerifC20Monitor": ["monitored"], "VerifC20ConnectRace": ["connected"]},
+            "covers": {"VerifC20ChannelID": ["symmetric", "distinct"], "VerifC20Monitor": ["monitored"], "VerifC20ConnectRace": ["connected"], "VerifC20Reconnect": ["first-context-ended", "reconnected"]},
         }, {
             "cross_solvers": ["cvc5", "z3-new"], "pkg": DC, "funcs": ["VerifC20FrameRoundTrip", "VerifC12RawFrame"],
             "params": {"quick": {"L": 3, "B": 11}, "thorough": {"L": 6, "B": 12}},
@@ -352,6 +359,7 @@ CHECKS = {
             "messages: M scripted messages, each from the local peer or a remote one, 1 symbolic byte body; the real WatchMessages / monitorTopic goroutines run in the interpreter",
             "pairwise channel registration: two overlapping Connect calls for the same peer under every schedule with at most P preemptions (the subscribe call is a preemption point); timers run on virtual time (they fire only when nothing else can run)",
             "channel names: peer ids are symbolic strings of length L without '/'; sort.Slice is a stable insertion sort over the real less closure",
+            "subscription lifetime: Connect with a caller's context, that context ends while the channel object lives on, Connect again: 1..2 later payloads of the remote peer are delivered exactly once; Close ends every monitor",
             "frames: payloads of 0..L symbolic bytes through the real Send -> varint -> handleNewPeer path over a byte-pipe stream stub; plus ANY raw stream of 0..B bytes",
             "pubsubraw adapter: the real NewPubSub / TopicSubscribe / WatchPeers / WatchMessages / Publish / Peers over scripted stand-ins for libp2p-pubsub's concrete Topic, TopicEventHandler and Subscription (methods replaced by name; NextPeerEvent / Next return the next scripted item or block until the context ends): every sequence of up to E join/leave events over P peers, every sequence of up to M messages each from the local peer or a remote one with 0..2 symbolic bytes; a violation in this group is reported on the interpreter's execution alone (confirmation: interpreter-only)",
         ],
@@ -392,6 +400,10 @@ CHECKS = {
             "timeout": {"quick": "10m", "thorough": "40m"},
             "covers": {"VerifC06Replay": ["replayed"]},
         }, {
+            "pkg": KV, "funcs": ["VerifC06ReadDuringWrite"],
+            "max_paths": {"quick": 60000, "thorough": 400000},
+            "covers": {"VerifC06ReadDuringWrite": ["put", "delete", "merge", "read-during-write"]},
+        }, {
             "pkg": KV, "funcs": ["VerifC01KV"],
             "params": {"quick": {"STEPS": 3}, "thorough": {"STEPS": 4}},
             "max_paths": {"quick": 60000, "thorough": 600000},
@@ -403,6 +415,7 @@ CHECKS = {
             "earlier index state = replay of an arbitrary sub-listing (models earlier merges of any subset)",
             "store built by the real NewOrbitDBKeyValue/InitBaseStore over stub IPFS/bus/cache; the log handed to the index is a stub exposing Values()",
             "encoding/json replaced by an idealised injective codec driven by the struct tags (omitempty honoured)",
+            "reads during writes (VerifC06ReadDuringWrite): All and Get started at ANY visible operation of a Put / Delete / merge of a remote batch; afterwards All (twice) and Get equal the replay of the log",
         ],
         "outside": ["N beyond the bound", "keys longer than 1 byte / non-UTF-8 keys rewritten by real JSON", "histories longer than STEPS with the real ipfs-log (VerifC01KV checks view == replay of the held log after every step of a two-writer history, which includes the happens-before clause because the log order comes from the real Append/Join clocks)"],
     },
@@ -414,10 +427,15 @@ CHECKS = {
             "timeout": {"quick": "10m", "thorough": "40m"},
             "covers": {"VerifC07Replay": ["built"], "VerifC07Get": ["get"], "VerifC07Query": ["query"],
                        "VerifC07Delete": ["delete-live", "delete-absent"]},
+        }, {
+            "pkg": DOC, "funcs": ["VerifC07ReadDuringWrite"],
+            "max_paths": {"quick": 60000, "thorough": 400000},
+            "covers": {"VerifC07ReadDuringWrite": ["put", "put-all", "delete", "merge", "read-during-write"]},
         }],
         "assumptions": [
             "listing of N operations (PUT / DEL / PUTALL of two documents) with symbolic printable-ASCII keys without spaces, symbolic 1-byte document bodies; earlier index state from an arbitrary sub-listing",
             "Get/Query explored over index states made of M single PUTs (they are functions of the index state only)",
+            "reads during writes (VerifC07ReadDuringWrite): a reader (Query of everything, then Get) is started at ANY visible operation of a Put / PutAll / Delete or of the merge of a remote batch on a real store; after the write returned and the store is quiet, Query (asked twice) and Get return exactly the documents of the replayed log",
             "strings.ToLower/Contains/ReplaceAll replaced by byte-loop equivalents (ASCII-exact)",
             "idealised injective JSON codec",
         ],
